@@ -1209,7 +1209,7 @@ type callersCase struct {
 var callerProgs = []string{"write0", "write1", "write2", "query", "queryOne", "getjournals", "getjournals-limit", "getjournal",
 	"partitions", "info", "truncate-dry", "truncate", "truncate-empty", "show", "describe",
 	"truncate-dry-global", "truncate-global", "truncate-dry-global-lql", "truncate-global-lql",
-	"truncate-race-write", "hold", "hold", "unhold", "cursor-open", "cursor-close", "cursor-badpos", "cursor-badpos-cached", "cursor-badpos-rpc", "cursor-badquery", "cursor-toomany",
+	"truncate-race-write", "hold", "hold", "unhold", "cursor-open", "cursor-close", "cursor-expire-busy", "cursor-badpos", "cursor-badpos-cached", "cursor-badpos-rpc", "cursor-badquery", "cursor-toomany",
 	"getjournals-fail"}
 
 // counts compares every partition's reader count with the acquisitions the case itself still holds on purpose
@@ -1327,6 +1327,40 @@ func runCallers(c callersCase, sec *vh.Section) {
 							expected[src] -= d
 						}
 						openCur, openDelta = nil, nil
+					}
+				case "cursor-expire-busy":
+					// a request keeps a cached cursor longer than the busy time-out: the sweeper drops the holder from the cache
+					// while the request is still reading. The cursor's partitions must stay acquired until the request gives
+					// the cursor back, and then be released exactly once.
+					cu, delta := openCur, openDelta
+					if cu == nil {
+						before := readers()
+						c2, err := srv.Cursors.GetOrCreate(ctx, cursor.State{Query: qAll}, true)
+						if err != nil || c2 == nil || cursor.IsEmptyCurVerif(c2) {
+							return
+						}
+						cu, delta = c2, map[string]int{}
+						for src, r := range readers() {
+							if d := r - before[src]; d != 0 {
+								delta[src] = d
+								expected[src] += d
+							}
+						}
+					}
+					openCur, openDelta = nil, nil
+					pv.Age(400 * time.Second) // busy time-out (300 s) passed, instead of sleeping
+					pv.SweepByTime()
+					if st, kind := counts(srv, expected); kind != "" {
+						res.SpecFail(vh.SpecFailure{Section: "callers", Kind: "released-while-held", Input: callersCase{Progs: c.Progs[:pi+1]}, Impl: st, Spec: "readers = holders (the request still holds the cursor)",
+							What: "the cursor cache's sweeper dropped a cursor that a request still holds (busy longer than the busy time-out) and its partitions were given back while the request is still reading: the partition can be deleted under a reader"})
+						for src, d := range delta {
+							expected[src] -= d
+						}
+						return
+					}
+					srv.Cursors.Release(ctx, cu) // no longer cached: closed now, partitions released once
+					for src, d := range delta {
+						expected[src] -= d
 					}
 				case "cursor-badpos", "cursor-badpos-cached":
 					// newCursor's error path after the partitions were acquired: the position cannot be applied
@@ -1820,6 +1854,180 @@ func stressChild(rng *vh.Rng) {
 }
 
 // ---------------------------------------------------------------------------------------------
+// restart: callers that run at server start (pipe.Service.Init -> ppipe.catchUp for every loaded pipe)
+
+type restartCase struct {
+	Prog string `json:"prog"`
+}
+
+// runRestart: a pipe copies from a source; TRUNCATE removes all of the source's chunks while the pipe worker's cursor still
+// holds it (the partition stays registered, empty); the server is restarted on the same directory — the pipe is loaded and
+// catches up with its sources (acquire by id, look at the chunks, release). Afterwards nobody uses the empty source: its
+// reader count must be 0 and TRUNCATE must be able to drop it. Variant "pipe-source-with-data": the source keeps its data
+// (no truncate): the catch-up starts a worker; after the worker's cursor is expired (through the provider export) the
+// count must be 0 as well.
+func runRestart(c restartCase, sec *vh.Section) {
+	in := map[string]interface{}{"prog": c.Prog}
+	dir := lrsrv.NewDir()
+	defer os.RemoveAll(dir)
+	srv, err := lrsrv.Start(dir, lrsrv.Opts{})
+	if err != nil {
+		res.Note("restart: %v", err)
+		return
+	}
+	stopped := false
+	stop := func(s *lrsrv.Srv) {
+		if !vh.WithTimeout(20*time.Second, s.Stop) {
+			res.Note("restart: the server did not shut down within 20 s (%s)", c.Prog)
+		}
+	}
+	defer func() {
+		if !stopped {
+			stop(srv)
+		}
+	}()
+	ctx := context.Background()
+	const tg = "c14=rsrc"
+	count := func(s *lrsrv.Srv, q string) int {
+		var qr api.QueryResult
+		if err := s.Client.Query(ctx, &api.QueryRequest{Query: q, Limit: 1000}, &qr); err != nil || qr.Err != nil {
+			return -1
+		}
+		return len(qr.Events)
+	}
+	poll := func(d time.Duration, f func() bool) bool {
+		for t0 := time.Now(); time.Since(t0) < d; time.Sleep(20 * time.Millisecond) {
+			if f() {
+				return true
+			}
+		}
+		return f()
+	}
+	if _, err := srv.Exec("create pipe c14pipe from " + tg); err != nil {
+		res.Note("restart: create pipe: %v", err)
+		return
+	}
+	evs := make([]*api.LogEvent, 20)
+	for i := range evs {
+		evs[i] = &api.LogEvent{Timestamp: int64(100 + i), Message: fmt.Sprintf("event %d", i)}
+	}
+	var wr api.WriteResult
+	if err := srv.Client.Write(ctx, tg, "", evs, &wr); err != nil || wr.Err != nil {
+		res.Note("restart: write: %v %v", err, wr.Err)
+		return
+	}
+	if !poll(60*time.Second, func() bool { return count(srv, "select from logrange.pipe=c14pipe limit 1000") == len(evs) }) {
+		res.Note("restart: the pipe did not copy the events within 60 s (machine load?)")
+		return
+	}
+	src, _, err := srv.TIndex.GetJournal(tg)
+	if err != nil {
+		res.Note("restart: source not found: %v", err)
+		return
+	}
+	srv.TIndex.Release(src)
+	if c.Prog == "pipe-source-emptied" {
+		srv.Exec("truncate " + tg + " maxsize 1")
+		if !poll(20*time.Second, func() bool { return count(srv, "select from "+tg+" limit 10") == 0 }) {
+			res.Note("restart: the source did not become empty")
+			return
+		}
+		// the chunk files are removed asynchronously: a stop before that resurrects the data at the next start (then the
+		// source is not empty after the restart and the scenario is another one)
+		if _, j, err := srv.Parts.GetJournal(ctx, src); err == nil {
+			folder := j.Chunks().LocalFolder()
+			srv.Parts.Release(src)
+			poll(10*time.Second, func() bool {
+				m, _ := filepath.Glob(filepath.Join(folder, "*.dat"))
+				return len(m) == 0
+			})
+		}
+		if _, _, ok := tindex.VerifState(srv.TIndex, src); !ok {
+			// (the worker's cursor did not pin it: the partition was dropped; the restart then has nothing to catch up with)
+			res.Dist(sec, c.Prog+":source-dropped-before-restart")
+		} else {
+			res.Dist(sec, c.Prog+":source-empty-but-registered")
+		}
+	}
+	stopped = true
+	stop(srv)
+	srv2, err := lrsrv.Start(dir, lrsrv.Opts{})
+	if err != nil {
+		res.Note("restart: second start: %v", err)
+		return
+	}
+	defer stop(srv2)
+	if c.Prog == "pipe-source-with-data" {
+		// the catch-up may have started a worker (nothing new to copy: it ends at once or waits for data); drop whatever
+		// cursor it cached, as its idle time-out would
+		if pv, ok := cursor.ProviderVerifOf(srv2.Cursors); ok {
+			poll(3*time.Second, func() bool {
+				pv.Age(400 * time.Second)
+				pv.SweepByTime()
+				r, _, _ := tindex.VerifState(srv2.TIndex, src)
+				return r == 0
+			})
+		}
+		res.Dist(sec, c.Prog)
+	}
+	// nobody uses the source now (a background sweep of the time index may hold it for a moment)
+	var r int
+	var x, ok bool
+	free := poll(15*time.Second, func() bool {
+		r, x, ok = tindex.VerifState(srv2.TIndex, src)
+		return !ok || (r == 0 && !x)
+	})
+	if !free {
+		held := "still acquired"
+		if c.Prog == "pipe-source-with-data" {
+			// a worker that waits for new data holds the source legitimately (up to 10 s, then its cursor idles): not judged
+			res.Dist(sec, c.Prog+":worker-still-holds(not judged)")
+			res.Eval(sec, c.Prog)
+			return
+		}
+		res.SpecFail(vh.SpecFailure{Section: "restart", Kind: "leak", Input: in, Impl: fmt.Sprintf("readers=%d exclusive=%v (%s)", r, x, held), Spec: "readers = 0",
+			What: "after a restart nobody uses the pipe's empty source partition, yet it stays acquired (the pipe's start-up catch-up did not give it back): the partition can never be deleted"})
+		res.Eval(sec, c.Prog)
+		return
+	}
+	if c.Prog == "pipe-source-emptied" && ok {
+		if _, j, err := srv2.Parts.GetJournal(ctx, src); err == nil {
+			sz := j.Size()
+			srv2.Parts.Release(src)
+			if sz > 0 {
+				// chunk files that were still on disk at the stop came back: not the empty-source scenario (and not C14's business)
+				res.Dist(sec, c.Prog+":source-not-empty-after-restart(not judged)")
+				res.Eval(sec, c.Prog)
+				return
+			}
+		}
+		// (a background task — the time index's clean-up, a rebuild — may hold the partition for a moment and make one
+		// TRUNCATE give the deletion up: that is allowed; an unused partition must become deletable, not at the first try)
+		var out string
+		var terr error
+		dropped := poll(20*time.Second, func() bool {
+			out, terr = srv2.Exec("truncate " + tg)
+			_, _, still := tindex.VerifState(srv2.TIndex, src)
+			return !still
+		})
+		if !dropped {
+			res.SpecFail(vh.SpecFailure{Section: "restart", Kind: "undeletable", Input: in, Impl: fmt.Sprintf("TRUNCATE did not drop the empty, unused partition: %q err=%v", out, terr), Spec: "dropped",
+				What: "an empty partition that nobody uses cannot be deleted after the restart"})
+		}
+	}
+	res.Eval(sec, c.Prog)
+}
+
+func sectionRestart() {
+	sec := res.Section("restart", "spec-search",
+		"callers that run at server start: a pipe with a saved position is loaded and catches up with its source (ppipe.catchUp: acquire by id, release) — the source emptied by TRUNCATE while the pipe worker's cursor pinned it (registered, no chunks), and the source with its data; after the restart the source's reader count returns to 0 and the empty one can be dropped; non-trivial = every program")
+	for _, p := range []string{"pipe-source-emptied", "pipe-source-with-data"} {
+		runRestart(restartCase{Prog: p}, sec)
+	}
+	res.Done(sec)
+}
+
+// ---------------------------------------------------------------------------------------------
 
 func replay(path string) {
 	var rp struct {
@@ -1847,6 +2055,14 @@ func replay(path string) {
 		json.Unmarshal(rp.Input, &c)
 		sec := res.Section("callers", "replay", "replay of one recorded program sequence")
 		runCallers(c, sec)
+		for _, f := range res.SpecFailures {
+			fmt.Printf("%s: %s (impl %s)\n", f.Kind, f.What, f.Impl)
+		}
+	case "restart":
+		var c restartCase
+		json.Unmarshal(rp.Input, &c)
+		sec := res.Section("restart", "replay", "replay of one restart program")
+		runRestart(c, sec)
 		for _, f := range res.SpecFailures {
 			fmt.Printf("%s: %s (impl %s)\n", f.Kind, f.What, f.Impl)
 		}
@@ -1883,6 +2099,7 @@ func main() {
 		sectionRaw(rng.Fork("raw"))
 		sectionSchedules(rng.Fork("schedules"))
 		sectionCallers(rng.Fork("callers"))
+		sectionRestart()
 	}
 	if args.Thorough {
 		sectionStress(rng.Fork("stress"))
